@@ -427,6 +427,13 @@ def scenarios(tier="quick"):
     s.config(c2)
     add("reload_new_queue", s, ["write 1 " + hexs(CFG_PATH)])
 
+    # the place of a version directory is taken by a stray regular file: the exclusive create fails with ENOTDIR, a
+    # failure of the STORE, not a condition of the source: the pass reports it and keeps the entry; after the repair
+    # and a restart the version is owed
+    s, _ = _pre(); s.put(A, "hello"); s.put(R + "/k/store/inc/a.txt", "stray"); s.start(); s.write(7, A)
+    add("drain_store_blocked", s, ["timeout"])
+    out[-1]["repair"] = ["rm " + hexs(R + "/k/store/inc/a.txt")]
+
     # the queue is moved while it is empty; what is accepted AFTER the reload must be found by a restart
     # (which reads the configuration file, hence the new queue directory)
     s, cfg = _pre(); s.put(A, "hello"); s.put(B, "world!"); s.start()
@@ -470,6 +477,8 @@ def scenario_script(sc, oracle_line=None, crash=False):
         if oracle_line:
             lines.append(oracle_line)
         lines.append(op)
+    # what the administrator repairs before the restart (a scenario whose operation is meant to fail)
+    lines += sc.get("repair", [])
     for l in post:
         lines.append(sc["start"] if l.startswith("start @CFG@") else l)
     return "\n".join(lines)
@@ -491,14 +500,17 @@ def gen_burst_case(rng, deb=None):
         # the store is unusable for a while (a stray regular file where its root belongs): the pass must report the
         # failure and keep the item; after repair and restart exactly one version is owed
         f = rng.choice(files[:4])
-        s.put(R + "/k/store", "stray")
+        # (where the store root belongs, or where the directory of this file's versions belongs: then it is the
+        # exclusive create of the version that fails, with ENOTDIR)
+        stray = rng.choice([R + "/k/store", R + "/k/store" + f[len(WATCH):]])
+        s.put(stray, "stray")
         s.put(f, "content 0")
         s.write(3, f)
         s.tick(deb + 1)
         s.dump()
         s.timeout()
         s.dump()
-        s.rm(R + "/k/store")
+        s.rm(stray)
         s.restart()
         s.exec(3, X + "/vim")
         s.dump()
@@ -589,14 +601,15 @@ def gen_collision_case(rng):
         # ... and the process may hold 40 descriptors: probing any number of taken names must not use them up
         s.add("nofile 40")
     for k in rng.sample(range(0, 6), rng.randint(0, 4)):
-        s.put("%s/k/store/%s/%s%s%s" % (R, rel, ver, "-%d" % k if k else "", ext), "old %d" % k)
+        # (an existing version may be EMPTY - the file was saved empty: it is a version like any other)
+        s.put("%s/k/store/%s/%s%s%s" % (R, rel, ver, "-%d" % k if k else "", ext), "" if rng.random() < 0.3 else "old %d" % k)
     if rng.random() < 0.3:
         s.mkdirp("%s/k/store/%s/%s-%d%s" % (R, rel, ver, rng.randint(1, 3), ext))   # a directory takes a name
     s.start()
     s.exec(3, X + "/vim")
     s.dump()
     for i in range(rng.randint(2, 12)):
-        s.put(f, "version %d" % i)
+        s.put(f, "" if rng.random() < 0.15 else "version %d" % i)
         s.write(3, f)
         # the source may change before the copy while the wanted name is already taken
         change = rng.choice(["none"] * 5 + ["delete", "directory", "unreadable"])
